@@ -109,6 +109,7 @@ type childResult struct {
 	logPath  string
 	restarts int
 	deaths   []violation
+	timeouts []string
 	timedOut bool
 }
 
@@ -198,6 +199,22 @@ func runChild(cfg runCfg, batch int) childResult {
 		logb, _ := os.ReadFile(logPath)
 		if err == nil && strings.Contains(string(logb), "WORKER-DONE") {
 			res.done = true
+			return res
+		}
+		if strings.Contains(string(logb), "CASE-TIMEOUT") {
+			// wall-clock watchdog: the case is not judged; carry on after it
+			stream, idx, _, _, _, ok := readIntent(filepath.Join(cfg.outDir, fmt.Sprintf("intent.%d", batch)))
+			if !ok {
+				res.exitErr = fmt.Errorf("case timeout without intent in batch %d", batch)
+				return res
+			}
+			res.timeouts = append(res.timeouts, fmt.Sprintf("%s:%d", stream, idx))
+			res.restarts++
+			resume = fmt.Sprintf("%s:%d", stream, idx)
+			continue
+		}
+		if strings.Contains(string(logb), "HARNESS-PANIC") {
+			res.exitErr = fmt.Errorf("harness panic in batch %d: %s", batch, clip(string(logb), 1500))
 			return res
 		}
 		// the child died: attribute the death to the last intent
@@ -360,7 +377,7 @@ func run(prop, tier string, seed int64) int {
 		}
 		outDir := filepath.Join(runDir, "out."+mode)
 		os.MkdirAll(outDir, 0o755)
-		cfg := runCfg{prop: prop, tier: tier, seed: seed, nbatch: 16, bin: bin, mode: mode, outDir: outDir, timeout: 40 * time.Minute, memKB: 8 << 20}
+		cfg := runCfg{prop: prop, tier: tier, seed: seed, nbatch: 16, bin: bin, mode: mode, outDir: outDir, timeout: 40 * time.Minute, memKB: 4 << 20}
 		if tier == "quick" {
 			cfg.timeout = 15 * time.Minute
 		}
@@ -395,6 +412,10 @@ func run(prop, tier string, seed int64) int {
 			}
 			if r.exitErr != nil {
 				inconclusive = fmt.Sprintf("batch %d (%s): %v", r.batch, mode, r.exitErr)
+			}
+			if len(r.timeouts) > 0 {
+				total.counters["case_timeouts_not_judged"] += int64(len(r.timeouts))
+				notes = append(notes, fmt.Sprintf("wall-clock watchdog fired for %v (cases not judged)", r.timeouts))
 			}
 			for _, d := range r.deaths {
 				// confirm by replaying the single case in a fresh child
@@ -485,6 +506,9 @@ func run(prop, tier string, seed int64) int {
 		key := v.Rule
 		seenRule[key]++
 		if seenRule[key] > 5 {
+			if seenRule[key] <= 40 {
+				fmt.Printf("  also: rule=%s stream=%s idx=%d features=%v expr=%s\n", v.Rule, v.Stream, v.Idx, v.Features, clip(strings.ReplaceAll(v.Expr, "\n", "\\n"), 120))
+			}
 			continue
 		}
 		os.MkdirAll(replayDir, 0o755)
